@@ -52,7 +52,8 @@ def mline(rnd):
     if r < 0.8:
         ts = str(rnd.choice([0, 1, 15, 1500000000, 2147483647, 2147483648, 4294967295]))
     else:
-        ts = rnd.choice(["4294967296", "-1", "1.5", "1e3", "15.0", "abc", "+5", "1_0", "99999999999"])
+        ts = rnd.choice(["4294967296", "-1", "1.5", "1e3", "15.0", "abc", "+5", "1_0", "99999999999", "5000000000", "8589934591", "8589934592", "9999999999",
+                         "4772185884", "9544371768", "18446744073709551616", "00000000001", str(rnd.randint(2**32, 2**35)), str(rnd.randint(2**32, 10**12))])
     parts = [name, v, ts]
     if rnd.random() < 0.05:
         parts = parts[:2]
